@@ -223,6 +223,7 @@ def session(req):
                         one["diff"] = sorted(bytes.fromhex(k).decode("latin1") for k in set(got) | set(want) if got.get(k) != want.get(k))[:5]
                     one["status"] = dul_status(r)
                     one["git"] = git_status(wt)
+                    one["index_tree_ok"] = r.open_index().commit(r.object_store) == trees[j]
                 except Exception as ex:  # noqa: BLE001
                     one["exc"] = type(ex).__name__ + ":" + str(ex)[:80]
                 sw.append(one)
